@@ -206,22 +206,10 @@ func fieldType(ntype reflect.Type, name string) (reflect.Type, bool) {
 		case reflect.Interface:
 			return interfaceType, true
 		case reflect.Struct:
-			// First check all struct's fields.
-			for i := 0; i < ntype.NumField(); i++ {
-				f := ntype.Field(i)
-				if f.Name == name {
-					return f.Type, true
-				}
-			}
-
-			// Second check fields of embedded structs.
-			for i := 0; i < ntype.NumField(); i++ {
-				f := ntype.Field(i)
-				if f.Anonymous {
-					if t, ok := fieldType(f.Type, name); ok {
-						return t, true
-					}
-				}
+			// The field the VM will find: exported, and unambiguous
+			// by Go's rules for embedded structs.
+			if f, ok := ntype.FieldByName(name); ok && f.PkgPath == "" {
+				return f.Type, true
 			}
 		case reflect.Map:
 			return ntype.Elem(), true
